@@ -17,7 +17,9 @@ import (
 	"io"
 	"os"
 	"os/exec"
+	"path/filepath"
 	"strings"
+	"sync"
 
 	"github.com/rhysd/actionlint"
 )
@@ -26,6 +28,7 @@ type cmpVec struct {
 	ID     int      `json:"id"`
 	Lvl    string   `json:"lvl"`
 	Hdr    string   `json:"hdr"`
+	Cfg    string   `json:"cfg"` // "" / "none": no configuration file; "labels": see cmpConfigLabels
 	Subj   string   `json:"subj"`
 	Preds  []string `json:"preds"`
 	States []string `json:"states"`
@@ -203,6 +206,19 @@ var cmpJobs = map[string]cmpItem{
       FROM_STEP: ${{ steps.a.outputs.v }}
     steps:
       - run: echo
+`},
+	"label-selfhosted-misspelled": {body: `    runs-on: [self-hosted, bigbox]
+    steps:
+      - run: echo
+`},
+	"label-selfhosted-pattern": {body: `    runs-on: [self-hosted, gpu-1]
+    steps:
+      - run: echo
+`},
+	"vars-config": {body: `    runs-on: ubuntu-latest
+    steps:
+      - run: echo ${{ vars.ALLOWED }}
+      - run: echo ${{ vars.OTHER }}
 `},
 	"needs-in-matrix": {dep: "outputs-job", body: `    needs: [@DEP@]
     strategy:
@@ -489,7 +505,7 @@ func (b *cmpBuilder) add(text string) (first, last int) {
 }
 
 func cmpJobText(name, id, dep, subj string) (string, error) {
-	it, ok := cmpJobs[name]
+	it, ok := cmpJobLookup(name)
 	if !ok {
 		return "", fmt.Errorf("job catalogue has no entry %q", name)
 	}
@@ -502,7 +518,7 @@ func cmpBuildJob(v cmpVec) (composed, reduced cmpText, err error) {
 	if !ok {
 		return composed, reduced, fmt.Errorf("no header %q", v.Hdr)
 	}
-	subjItem, ok := cmpJobs[v.Subj]
+	subjItem, ok := cmpJobLookup(v.Subj)
 	if !ok {
 		return composed, reduced, fmt.Errorf("job catalogue has no entry %q", v.Subj)
 	}
@@ -532,7 +548,7 @@ func cmpBuildJob(v cmpVec) (composed, reduced cmpText, err error) {
 		}
 		if i < len(v.Preds) {
 			// a predecessor that needs another job brings it along (it is unrelated to the subject)
-			pi := cmpJobs[v.Preds[i]]
+			pi, _ := cmpJobLookup(v.Preds[i])
 			pid := fmt.Sprintf("p%d", i+1)
 			if pi.dep != "" {
 				t, e := cmpJobText(pi.dep, pid+"dep", "", pid)
@@ -644,8 +660,141 @@ func cmpBuildExpr(v cmpVec) (composed, reduced cmpText, err error) {
 	return cmpExprFrame(subj, v.Place, pred), cmpExprFrame(subj, "", ""), nil
 }
 
-func cmpLint(src string, tools bool) ([]Diag, error) {
-	opts := &actionlint.LinterOptions{}
+// ------------------------------------------------------------------ project directories
+//
+// Every workflow is linted as .github/workflows/w.yaml of a scratch repository that holds local actions
+// (two pairs that collide in `name:` / in the directory base name but differ in inputs and outputs)
+// and, for cfg = "labels", the configuration file .github/actionlint.yaml.
+
+const cmpConfigLabels = `self-hosted-runner:
+  labels:
+    - gpu-*
+    - big-box
+config-variables:
+  - ALLOWED
+`
+
+var cmpLocalActions = map[string]string{
+	"actions/one/action.yml": `name: 'Build'
+description: 'first action named Build'
+inputs:
+  token:
+    description: 'token'
+    required: true
+outputs:
+  alpha:
+    description: 'alpha'
+runs:
+  using: 'node20'
+  main: 'index.js'
+`,
+	"actions/two/action.yml": `name: 'Build'
+description: 'second action named Build'
+inputs:
+  token:
+    description: 'token'
+    required: false
+  extra:
+    description: 'extra'
+    required: false
+outputs:
+  beta:
+    description: 'beta'
+runs:
+  using: 'node20'
+  main: 'index.js'
+`,
+	"pkg-a/build/action.yml": `name: 'Build of package A'
+description: 'a'
+outputs:
+  alpha:
+    description: 'alpha'
+runs:
+  using: 'node20'
+  main: 'index.js'
+`,
+	"pkg-b/build/action.yml": `name: 'Build of package B'
+description: 'b'
+inputs:
+  flavor:
+    description: 'flavor'
+    required: true
+outputs:
+  beta:
+    description: 'beta'
+runs:
+  using: 'node20'
+  main: 'index.js'
+`,
+}
+
+var (
+	cmpProjOnce sync.Once
+	cmpProjDirs = map[string]string{}
+	cmpProjs    = map[string]*actionlint.Project{}
+	cmpProjErr  error
+	cmpProjBase string
+)
+
+func cmpProject(cfg string) (*actionlint.Project, string, error) {
+	cmpProjOnce.Do(func() {
+		cmpProjBase, cmpProjErr = os.MkdirTemp("", "vp-c09-")
+		if cmpProjErr != nil {
+			return
+		}
+		for _, c := range []string{"none", "labels"} {
+			root := filepath.Join(cmpProjBase, c)
+			for _, d := range []string{".git", ".github/workflows"} {
+				if cmpProjErr = os.MkdirAll(filepath.Join(root, d), 0o755); cmpProjErr != nil {
+					return
+				}
+			}
+			for rel, text := range cmpLocalActions {
+				f := filepath.Join(root, rel)
+				os.MkdirAll(filepath.Dir(f), 0o755)
+				if cmpProjErr = os.WriteFile(f, []byte(text), 0o644); cmpProjErr != nil {
+					return
+				}
+				// the callees are well formed (a broken local action is reported once per run by design: C02/C10)
+				os.WriteFile(filepath.Join(filepath.Dir(f), "index.js"), []byte("// entry point\n"), 0o644)
+			}
+			if c == "labels" {
+				if cmpProjErr = os.WriteFile(filepath.Join(root, ".github", "actionlint.yaml"), []byte(cmpConfigLabels), 0o644); cmpProjErr != nil {
+					return
+				}
+			}
+			var p *actionlint.Project
+			if p, cmpProjErr = actionlint.NewProject(root); cmpProjErr != nil {
+				return
+			}
+			cmpProjDirs[c], cmpProjs[c] = root, p
+		}
+	})
+	if cmpProjErr != nil {
+		return nil, "", cmpProjErr
+	}
+	if cfg == "" {
+		cfg = "none"
+	}
+	p, ok := cmpProjs[cfg]
+	if !ok {
+		return nil, "", fmt.Errorf("unknown configuration %q", cfg)
+	}
+	return p, filepath.Join(cmpProjDirs[cfg], ".github", "workflows", "w.yaml"), nil
+}
+
+func cmpProjectCleanup() {
+	if cmpProjBase != "" {
+		os.RemoveAll(cmpProjBase)
+	}
+}
+
+func cmpLint(src string, tools bool, cfg string) ([]Diag, error) {
+	proj, path, err := cmpProject(cfg)
+	if err != nil {
+		return nil, err
+	}
+	opts := &actionlint.LinterOptions{WorkingDir: filepath.Dir(filepath.Dir(filepath.Dir(path)))}
 	if tools {
 		self, err := os.Executable()
 		if err != nil {
@@ -658,11 +807,112 @@ func cmpLint(src string, tools bool) ([]Diag, error) {
 	if err != nil {
 		return nil, err
 	}
-	errs, err := l.Lint("<stdin>", []byte(src), nil)
+	errs, err := l.Lint(path, []byte(src), proj)
 	if err != nil {
 		return nil, err
 	}
 	return toDiags(errs), nil
+}
+
+// ------------------------------------------------------------------ colliding popular actions
+
+type cmpActionPair struct{ a, b string }
+
+var (
+	cmpPairsOnce sync.Once
+	cmpPairs     []cmpActionPair
+)
+
+func cmpOutputNames(spec string) []string {
+	var o []string
+	for n := range actionlint.PopularActions[spec].Outputs {
+		o = append(o, n)
+	}
+	sortStrings(o)
+	return o
+}
+
+// cmpPopularPairs finds, in the bundled table, pairs of actions whose metadata has the same `name:` but
+// different outputs (one pair per name, in the order of the names).
+func cmpPopularPairs() []cmpActionPair {
+	cmpPairsOnce.Do(func() {
+		byName := map[string][]string{}
+		for spec, m := range actionlint.PopularActions {
+			byName[m.Name] = append(byName[m.Name], spec)
+		}
+		var names []string
+		for n := range byName {
+			names = append(names, n)
+		}
+		sortStrings(names)
+		// first the names with two versions that both declare outputs, then those where one declares none
+		for _, both := range []bool{true, false} {
+			for _, n := range names {
+				specs := byName[n]
+				sortStrings(specs)
+			search:
+				for i := 0; i < len(specs); i++ {
+					for j := i + 1; j < len(specs); j++ {
+						oa, ob := strings.Join(cmpOutputNames(specs[i]), ","), strings.Join(cmpOutputNames(specs[j]), ",")
+						if oa != ob && (oa != "" && ob != "") == both {
+							cmpPairs = append(cmpPairs, cmpActionPair{specs[i], specs[j]})
+							break search
+						}
+					}
+				}
+			}
+		}
+	})
+	return cmpPairs
+}
+
+func cmpUsesJob(spec string, with string, outputs []string) cmpItem {
+	var sb strings.Builder
+	sb.WriteString("    runs-on: ubuntu-latest\n    steps:\n      - id: act\n        uses: " + spec + "\n" + with)
+	for _, o := range outputs {
+		sb.WriteString("      - run: echo ${{ steps.act.outputs['" + o + "'] }}\n")
+	}
+	return cmpItem{body: sb.String()}
+}
+
+// cmpJobLookup resolves a catalogue name: the static table, or the entries generated from the action tables
+func cmpJobLookup(name string) (cmpItem, bool) {
+	if it, ok := cmpJobs[name]; ok {
+		return it, true
+	}
+	if strings.HasPrefix(name, "popular-same-name-") && len(name) == len("popular-same-name-")+2 {
+		pairs := cmpPopularPairs()
+		if len(pairs) == 0 {
+			return cmpItem{}, false
+		}
+		k := int(name[len(name)-2]-'1') % len(pairs)
+		pr := pairs[k]
+		union := append(cmpOutputNames(pr.a), cmpOutputNames(pr.b)...)
+		sortStrings(union)
+		var outs []string
+		for i, o := range union {
+			if (i == 0 || union[i-1] != o) && len(outs) < 8 {
+				outs = append(outs, o)
+			}
+		}
+		outs = append(outs, "no-such-output")
+		spec := pr.a
+		if name[len(name)-1] == 'b' {
+			spec = pr.b
+		}
+		return cmpUsesJob(spec, "", outs), true
+	}
+	switch name {
+	case "local-action-same-name-a":
+		return cmpUsesJob("./actions/one", "        with:\n          token: t\n", []string{"alpha", "beta"}), true
+	case "local-action-same-name-b":
+		return cmpUsesJob("./actions/two", "        with:\n          extra: e\n", []string{"alpha", "beta"}), true
+	case "local-action-same-basename-a":
+		return cmpUsesJob("./pkg-a/build", "", []string{"alpha", "beta"}), true
+	case "local-action-same-basename-b":
+		return cmpUsesJob("./pkg-b/build", "", []string{"alpha", "beta"}), true
+	}
+	return cmpItem{}, false
 }
 
 func cmpRun(v cmpVec, reps int) cmpOut {
@@ -689,8 +939,8 @@ func cmpRun(v cmpVec, reps int) cmpOut {
 	}
 	out.SrcComposed, out.SrcReduced = c.src, r.src
 	for i := 0; i < reps; i++ {
-		dc, e1 := cmpLint(c.src, v.Tools)
-		dr, e2 := cmpLint(r.src, v.Tools)
+		dc, e1 := cmpLint(c.src, v.Tools, v.Cfg)
+		dr, e2 := cmpLint(r.src, v.Tools, v.Cfg)
 		if e1 != nil || e2 != nil {
 			out.Other = append(out.Other, fmt.Sprint("lint error: ", e1, " / ", e2))
 			return out
@@ -797,7 +1047,7 @@ type cmpItemOut struct {
 }
 
 // cmpItemRun lints one catalogue entry alone (this process has linted nothing before)
-func cmpItemRun(lvl, name, hdr string) cmpItemOut {
+func cmpItemRun(lvl, name, hdr, cfg string) cmpItemOut {
 	out := cmpItemOut{Lvl: lvl, Name: name, Hdr: hdr, Changed: []string{}, Other: []string{}}
 	v := cmpVec{Lvl: lvl, Hdr: hdr, Subj: name, Pos: 0, Place: ""}
 	var r cmpText
@@ -822,7 +1072,7 @@ func cmpItemRun(lvl, name, hdr string) cmpItemOut {
 	}
 	out.Src = r.src
 	before := cmpGlobalDump()
-	if _, err := cmpLint(r.src, false); err != nil {
+	if _, err := cmpLint(r.src, false, cfg); err != nil {
 		out.Other = append(out.Other, "lint error: "+err.Error())
 		return out
 	}
@@ -845,7 +1095,12 @@ func cmpItemRun(lvl, name, hdr string) cmpItemOut {
 func init() {
 	// compose-item <lvl> <name> <hdr>: one entry in this fresh process, JSON on stdout
 	register("compose-item", func(args []string) error {
-		o := cmpItemRun(args[0], args[1], args[2])
+		defer cmpProjectCleanup()
+		cfg := "none"
+		if len(args) > 3 {
+			cfg = args[3]
+		}
+		o := cmpItemRun(args[0], args[1], args[2], cfg)
 		b, _ := json.Marshal(o)
 		fmt.Println(string(b))
 		return nil
@@ -861,7 +1116,7 @@ func init() {
 			return err
 		}
 		outs := parallelMap(in, func(it cmpItemOut) cmpItemOut {
-			b, err := exec.Command(self, "compose-item", it.Lvl, it.Name, it.Hdr).Output()
+			b, err := exec.Command(self, "compose-item", it.Lvl, it.Name, it.Hdr, "labels").Output()
 			var o cmpItemOut
 			if err != nil || json.Unmarshal(b, &o) != nil {
 				return cmpItemOut{Lvl: it.Lvl, Name: it.Name, Hdr: it.Hdr, Changed: []string{},
@@ -874,8 +1129,16 @@ func init() {
 }
 
 func init() {
+	// compose-popular: the colliding pairs found in the bundled table (for inspection)
+	register("compose-popular", func(args []string) error {
+		for _, pr := range cmpPopularPairs() {
+			fmt.Printf("%q: %s %v | %s %v\n", actionlint.PopularActions[pr.a].Name, pr.a, cmpOutputNames(pr.a), pr.b, cmpOutputNames(pr.b))
+		}
+		return nil
+	})
 	register("c09tool", cmpTool)
 	register("compose-run", func(args []string) error {
+		defer cmpProjectCleanup()
 		in, err := readJSONL[cmpVec](args[0])
 		if err != nil {
 			return err
